@@ -11,8 +11,14 @@ Shard123  == <<1, 2, 3>>
 Shard1123 == <<1, 1, 2, 3>>
 Shard1234 == <<1, 2, 3, 4>>
 
+NF_all   == {<<n, f>> : n \in 0..MaxChunks, f \in -1..(MaxChunks-1)}
+NF_read  == {<<2, -1>>, <<1, -1>>, <<2, 1>>}
+NF_count == {<<0, -1>>, <<1, -1>>, <<2, -1>>, <<2, 0>>, <<2, 1>>}
+NF_evict == {<<1, -1>>, <<2, -1>>, <<3, -1>>}
+
 \* state constraint shared by the bounded configurations
 ClockBound == clock <= 8
+ClockBound6 == clock <= 6
 
 \* VIEW: ghost variables do not distinguish behaviours
 View == <<entries, path, objs, bytes, count, lock, pc, op, pend, handles, clock, nextVer, jan, limit>>
